@@ -17,11 +17,17 @@ op kinds (zref as in harness/dtutil.py: "n" | "f<µs>" | "<zone index>"):
   ("repl", zr, w, fold, w2, fold2)               replace(all fields, fold)
   ("date", ordA, ordB) ("time", todA, todB, zr)  Date / Time accessors and operators
   ("ty",  zr, w, fold)                           result types of every method returning date/time/datetime
+  ("parts", zr, w, fold)                         date() / time() / timetz(): class, fields, tzinfo object, fold
+  ("comb", zrT, w, fold, zrArg)                  DateTime.combine(date, time carrying tzinfo zrT and fold[, tzinfo=zrArg])
+  ("dford", n) ("drepl", ord, y|"x", m|"x", d|"x") ("dsub", ordA, ordB, nat)     Date.fromordinal / replace / __sub__(date)
+  ("trepl", tod, zr, fold, h|"x", m|"x", s|"x", us|"x", "k"|"c"|zr2, fold2|"x")  Time.replace
+  ("tsub", "s"|"r", todSelf, zrSelf, todOther, zrOther, nat)                     Time.__sub__(time) / __rsub__
 """
 from __future__ import annotations
 
 import datetime as dt
 import itertools
+import zlib
 import zoneinfo
 
 from harness import common as C
@@ -31,7 +37,7 @@ from harness import zones as Z
 ID = "C11"
 BACKENDS = ("py", "rs")
 GEN_MODULES = ()
-MIN_THEOREMS = 15
+MIN_THEOREMS = 38
 US = D.US
 DAY = 86400 * US
 YMAX = Z.YMAX_QUICK
@@ -201,7 +207,78 @@ def impl(op, backend):
         w = (x.toordinal() - 719163) * DAY
         return "ok 0 %d %d %d %d %d %d %d %d %d 0 %d %d 0" % (w, x.toordinal(), x.weekday(), ic[0], ic[1], ic[2], x.year, x.month, x.day,
                                                               tt.tm_yday, x.toordinal())
+    if k == "parts":
+        _, zr, w, fold = op
+        x = D.mk(zr, w, fold)
+        d, t, tz = x.date(), x.time(), x.timetz()
+        return "ok %d %d %s %s" % (_tyc(d), d.toordinal(), _tv_words(t, x.tzinfo, None), _tv_words(tz, x.tzinfo, None))
+    if k == "comb":
+        _, zrt, w, fold, zra = op
+        d, t = _comb_args(op, pend=zlib.crc32(repr(op).encode()) % 2 == 0)
+        r = p.DateTime.combine(d, t) if zra == "n" else p.DateTime.combine(d, t, D.tzobj(zra))
+        return "ok %d %s" % (_tyc(r), D.outv(r)[3:])
+    if k == "dford":
+        r = p.Date.fromordinal(op[1])
+        return "ok %d %d" % (_tyc(r), r.toordinal())
+    if k == "drepl":
+        _, n, y, m, d = op
+        d0 = dt.date.fromordinal(n)
+        r = p.Date(d0.year, d0.month, d0.day).replace(**_kw(("year", y), ("month", m), ("day", d)))
+        return "ok %d %d" % (_tyc(r), r.toordinal())
+    if k == "dsub":
+        _, oa, ob, nat = op
+        a0, b0 = dt.date.fromordinal(oa), dt.date.fromordinal(ob)
+        r = p.Date(a0.year, a0.month, a0.day) - (b0 if nat else p.Date(b0.year, b0.month, b0.day))
+        return "ok %d %d" % (_tyc(r), _us_any(r))
+    if k == "trepl":
+        _, tod, zr, fold, h, m, s_, us, ta, fa = op
+        tz = D.tzobj(zr)
+        x = p.Time(*D.fields(tod)[3:], tzinfo=tz, fold=fold)
+        kw = _kw(("hour", h), ("minute", m), ("second", s_), ("microsecond", us), ("fold", fa))
+        arg = None
+        if ta == "c":
+            kw["tzinfo"] = None
+        elif ta != "k":
+            arg = kw["tzinfo"] = D.tzobj(ta)
+        return "ok " + _tv_words(x.replace(**kw), tz, arg)
+    if k == "tsub":
+        _, how, ta, za, tb, zb, nat = op
+        a = p.Time(*D.fields(ta)[3:], tzinfo=D.tzobj(za))
+        b = (dt.time if (nat or how == "r") else p.Time)(*D.fields(tb)[3:], tzinfo=D.tzobj(zb))
+        r = (b - a) if how == "r" else (a - b)
+        return "ok %d %d" % (_tyc(r), _us_any(r))
     return "ok"
+
+
+def _tyc(r):
+    """class of an answer (Native.Ty.code)"""
+    p = _P["p"]
+    codes = {p.Date: 1, p.Time: 2, p.DateTime: 3, p.Interval: 4, p.Duration: 5, dt.date: 11, dt.time: 12, dt.datetime: 13, dt.timedelta: 14}
+    return codes.get(type(r), 99)
+
+
+def _kw(*pairs):
+    return {k: v for k, v in pairs if v != "x"}
+
+
+def _tod(t):
+    return ((t.hour * 60 + t.minute) * 60 + t.second) * US + t.microsecond
+
+
+def _tv_words(t, own, arg):
+    """<ty> <tod> <tz identity: 0 None, 2 the tzinfo argument, 1 the receiver's own object, 9 something else> <fold>"""
+    tzid = 0 if t.tzinfo is None else 2 if (arg is not None and t.tzinfo is arg) else 1 if t.tzinfo is own else 9
+    return "%d %d %d %d" % (_tyc(t), _tod(t), tzid, t.fold)
+
+
+def _comb_args(op, pend):
+    """(date, time) operands of combine, pendulum or native classes"""
+    p = _P["p"]
+    _, zrt, w, fold, zra = op
+    f = D.fields(w)
+    if pend:
+        return p.Date(*f[:3]), p.Time(*f[3:], tzinfo=D.tzobj(zrt), fold=fold)
+    return dt.date(*f[:3]), dt.time(*f[3:], tzinfo=D.tzobj(zrt), fold=fold)
 
 
 def _target(x, zr, zr2, kind):
@@ -228,6 +305,23 @@ def line(op, backend):
         return "c11repl %s %d %d %d %d" % op[1:]
     if k == "date":
         return "c11u n %d 0" % ((op[1] - 719163) * DAY)      # a Date is a naive midnight for the calendar accessors
+    if k == "parts":
+        return "c11parts %s %d %d" % op[1:]
+    if k == "comb":
+        _, zrt, w, fold, zra = op
+        return "c11comb %s %d %d %d %s" % (zrt, w // DAY + 719163, w % DAY, fold, zra)
+    if k == "dford":
+        return "c11dford %d" % op[1]
+    if k == "drepl":
+        return "c11drepl %d %s %s %s" % op[1:]
+    if k == "dsub":
+        return "c11dsub %d %d" % op[1:3]
+    if k == "trepl":
+        _, tod, zr, fold, h, m, s_, us, ta, fa = op
+        return "c11trepl %d %d %d %s %s %s %s %s %s" % (tod, int(zr != "n"), fold, h, m, s_, us, ta if ta in "kc" else "2", fa)
+    if k == "tsub":
+        _, how, ta, za, tb, zb, nat = op
+        return "c11tsub %s %d %d %d %d" % (how, ta, int(za != "n"), tb, int(zb != "n"))
     return None
 
 
@@ -492,8 +586,154 @@ def _o_types(op):
     return None
 
 
+def _raises(f):
+    try:
+        return None, f()
+    except Exception as e:  # noqa: BLE001
+        return type(e).__name__, None
+
+
+def _o_parts(op, out):
+    p = _P["p"]
+    _, zr, w, fold = op
+    pv, na, nb = _pn(zr, w, fold)
+    d, t, tz = pv.date(), pv.time(), pv.timetz()
+    nd, nt, ntz = na.date(), na.time(), na.timetz()
+    if type(d) is not p.Date or type(t) is not p.Time or type(tz) is not p.Time:
+        return f"date()/time()/timetz() return {type(d).__name__}/{type(t).__name__}/{type(tz).__name__}"
+    if (d.year, d.month, d.day) != (nd.year, nd.month, nd.day) or not (d == nd and nd == d):
+        return f"date(): {d!r} != native {nd!r}"
+    if (t.hour, t.minute, t.second, t.microsecond, t.tzinfo) != (nt.hour, nt.minute, nt.second, nt.microsecond, None) or not (t == nt and nt == t):
+        return f"time(): {t!r} != native {nt!r}"
+    if (tz.hour, tz.minute, tz.second, tz.microsecond, tz.fold) != (ntz.hour, ntz.minute, ntz.second, ntz.microsecond, ntz.fold) \
+            or tz.tzinfo is not ntz.tzinfo or _safe(lambda: tz == ntz) is not True:
+        return f"timetz(): {tz!r} fold {tz.fold} != native {ntz!r} fold {ntz.fold}"
+    exp = "ok 1 %d 2 %d 0 0 2 %d %d %d" % (w // DAY + 719163, w % DAY, w % DAY, int(zr != "n"), fold)
+    if out != exp:
+        return f"date()/time()/timetz() observed {out}, the value was built as {exp}"
+    return None
+
+
+def _o_comb(op, out):
+    p = _P["p"]
+    _, zrt, w, fold, zra = op
+    if not out.startswith("ok 3 "):
+        return "combine returns class code " + out
+    for pend in (True, False):
+        d, t = _comb_args(op, pend)
+        r = p.DateTime.combine(d, t) if zra == "n" else p.DateTime.combine(d, t, D.tzobj(zra))
+        if type(r) is not p.DateTime:
+            return "combine returns " + type(r).__name__
+        if zrt != "n" and zra != "n":
+            continue        # aware time AND a tzinfo argument: pendulum keeps the time's tzinfo (instance(): `dt.tzinfo or tz`); class only
+        nd, nt = _comb_args(op, False)
+        nr = dt.datetime.combine(nd, nt) if zra == "n" else dt.datetime.combine(nd, nt, D.tzobj(zra))
+        zr = zrt if zrt != "n" else zra
+        if zr not in ("n",) and zr[0] != "f" and len(D.wall_solutions(_name(zr), w, YMAX)) == 0:
+            continue        # skipped wall time: pendulum normalises it (C02)
+        fr = (r.year, r.month, r.day, r.hour, r.minute, r.second, r.microsecond, r.utcoffset(), r.tzinfo is nr.tzinfo)
+        fn = (nr.year, nr.month, nr.day, nr.hour, nr.minute, nr.second, nr.microsecond, nr.utcoffset(), True)
+        if fr != fn:
+            return f"combine: pendulum {fr} != native {fn}"
+        if _exp_off(zr, w, fold)[1] and r.fold != nr.fold:
+            return f"combine: fold {r.fold} != native {nr.fold} on a repeated wall time"
+        if not (r == nr and nr == r and hash(r) == hash(nr)):
+            return "combine: result does not compare/hash equal to the native result"
+    return None
+
+
+def _o_dateops(op, out):
+    p = _P["p"]
+    k = op[0]
+    if k == "dford":
+        f, g = (lambda: p.Date.fromordinal(op[1])), (lambda: dt.date.fromordinal(op[1]))
+    elif k == "drepl":
+        d0 = dt.date.fromordinal(op[1])
+        kw = _kw(("year", op[2]), ("month", op[3]), ("day", op[4]))
+        f, g = (lambda: p.Date(d0.year, d0.month, d0.day).replace(**kw)), (lambda: d0.replace(**kw))
+    else:
+        a0, b0 = dt.date.fromordinal(op[1]), dt.date.fromordinal(op[2])
+        pa = p.Date(a0.year, a0.month, a0.day)
+        pb = b0 if op[3] else p.Date(b0.year, b0.month, b0.day)
+        f, g = (lambda: pa - pb), (lambda: a0 - b0)
+    (e1, r), (e2, nr) = _raises(f), _raises(g)
+    if e1 != e2:
+        return f"{k}: pendulum raises {e1}, native raises {e2}"
+    if e1 is not None:
+        return None if out == "err " + e2 else f"{k}: observed {out}, native raises {e2}"
+    if k == "dsub":
+        if type(r) is not p.Interval:
+            return "Date - date returns " + type(r).__name__
+        if not (r == nr and nr == r) or _us_any(r) != _us(nr):
+            return f"Date - date: {_us_any(r)} us != native {_us(nr)} us"
+        exp = "ok 4 %d" % ((op[1] - op[2]) * DAY)
+    else:
+        if type(r) is not p.Date:
+            return f"{k} returns {type(r).__name__}"
+        if (r.year, r.month, r.day) != (nr.year, nr.month, nr.day) or not (r == nr and nr == r and hash(r) == hash(nr)):
+            return f"{k}: {r!r} != native {nr!r}"
+        exp = "ok 1 %d" % nr.toordinal()
+    return None if out == exp else f"{k}: observed {out}, native gives {exp}"
+
+
+def _o_trepl(op, out):
+    p = _P["p"]
+    _, tod, zr, fold, h, m, s_, us, ta, fa = op
+    tz = D.tzobj(zr)
+    f0 = D.fields(tod)[3:]
+    kw = _kw(("hour", h), ("minute", m), ("second", s_), ("microsecond", us), ("fold", fa))
+    if ta == "c":
+        kw["tzinfo"] = None
+    elif ta != "k":
+        kw["tzinfo"] = D.tzobj(ta)
+    (e1, r), (e2, nr) = _raises(lambda: p.Time(*f0, tzinfo=tz, fold=fold).replace(**kw)), _raises(lambda: dt.time(*f0, tzinfo=tz, fold=fold).replace(**kw))
+    if e1 != e2:
+        return f"Time.replace: pendulum raises {e1}, native raises {e2}"
+    if e1 is not None:
+        return None if out == "err " + e2 else f"Time.replace: observed {out}, native raises {e2}"
+    if type(r) is not p.Time:
+        return "Time.replace returns " + type(r).__name__
+    if (r.hour, r.minute, r.second, r.microsecond) != (nr.hour, nr.minute, nr.second, nr.microsecond) or r.tzinfo is not nr.tzinfo:
+        return f"Time.replace: {r!r} != native {nr!r}"
+    if _safe(lambda: r == nr and nr == r) is not True or _safe(lambda: hash(r)) != _safe(lambda: hash(nr)):
+        return "Time.replace: result does not compare/hash equal to the native result"
+    # a time's fold selects nothing (utcoffset(None)); it is not compared (C14's assumption)
+    return None
+
+
+def _o_tsub(op, out):
+    p = _P["p"]
+    _, how, ta, za, tb, zb, nat = op
+    if out == "err TypeError":
+        return None          # what the native class answers for every time - time
+    if out.startswith("err"):
+        return "time - time raises " + out[4:]
+    d0 = dt.date(2001, 2, 3)
+    ref = dt.datetime.combine(d0, dt.time(*D.fields(ta)[3:])) - dt.datetime.combine(d0, dt.time(*D.fields(tb)[3:]))
+    if how == "r":
+        ref = -ref
+    a = p.Time(*D.fields(ta)[3:], tzinfo=D.tzobj(za))
+    b = (dt.time if (nat or how == "r") else p.Time)(*D.fields(tb)[3:], tzinfo=D.tzobj(zb))
+    r = (b - a) if how == "r" else (a - b)
+    if type(r) is not p.Duration:
+        return "time - time returns " + type(r).__name__
+    if not (r == ref and ref == r) or _us_any(r) != _us(ref) or out != "ok 5 %d" % _us(ref):
+        return f"time - time: {_us_any(r)} us ({out}) != {_us(ref)} us (difference of the two times on one day)"
+    return None
+
+
 def oracle(op, out, backend):
     k = op[0]
+    if k == "parts":
+        return _o_parts(op, out)
+    if k == "comb":
+        return _o_comb(op, out)
+    if k in ("dford", "drepl", "dsub"):
+        return _o_dateops(op, out)
+    if k == "trepl":
+        return _o_trepl(op, out)
+    if k == "tsub":
+        return _o_tsub(op, out)
     if out.startswith("err"):
         return "implementation: " + out
     if k == "u":
@@ -563,6 +803,12 @@ def gen_ops(rng, tier):
                         yield ("az", zr, w, fold, zr2, knd)
                     if rng.random() < 0.3:
                         yield ("ty", zr, w, fold)
+                    yield ("parts", zr, w, fold)
+                    yield ("comb", zr, w, fold, "n")
+                    if fold == 0 or rng.random() < 0.3:
+                        yield ("comb", "n", w, fold, zr)
+                    if rng.random() < 0.2:
+                        yield ("comb", zr, w, fold, other)
             span = (hi - lo) * US
             pairs = [(zr, mid, 0, zr, mid, 1, 0), (zr, mid, 1, zr, mid, 0, 0), (zr, mid, 1, zr, mid, 0, 1),
                      (zr, mid, 1, zr, mid + max(1, span // 4), 0, 0), (zr, mid, 1, zr, mid + max(1, span // 4), 0, 1),
@@ -595,16 +841,35 @@ def gen_ops(rng, tier):
             yield ("repl", zr, w, fold, w2, rng.randint(0, 1))
         if rng.random() < 0.1:
             yield ("ty", zr, w, fold)
+        if rng.random() < 0.4:
+            yield ("parts", zr, w, fold)
+            yield ("comb", zr, w, fold, "n")
+            yield ("comb", "n", w, fold, _rand_zr(rng, "zfn"))
     m = {"quick": 2000, "thorough": 100000, "widen": 20000}[tier]
     edge = [1, 2, 365, 366, 3652059, 3652058, 719163, 737484]
     for i in range(m):
         oa = edge[i] if i < len(edge) else rng.randint(1, 3652059)
         ob = rng.choice((oa, oa + rng.randint(-400, 400), rng.randint(1, 3652059)))
-        yield ("date", oa, min(max(ob, 1), 3652059))
+        ob = min(max(ob, 1), 3652059)
+        yield ("date", oa, ob)
+        yield ("dsub", oa, ob, i % 2)
+        yield ("dford", oa if i % 7 else rng.choice((0, -1, -400, 3652060, 3652061, 4000000, oa)))
+        nd = dt.date.fromordinal(ob)
+        pick = lambda good, bad: "x" if rng.random() < 0.4 else (good if rng.random() < 0.8 else rng.choice(bad))   # noqa: E731
+        yield ("drepl", oa, pick(nd.year, (0, 10000, -1)), pick(nd.month, (0, 13, 2)), pick(nd.day, (0, 29, 30, 31, 32)))
     for i in range(m):
         ta = rng.choice((0, DAY - 1, rng.randrange(DAY)))
         tb = rng.choice((ta, 0, DAY - 1, rng.randrange(DAY)))
-        yield ("time", ta, tb, _rand_zr(rng, "nnzf"))
+        zr = _rand_zr(rng, "nnzf")
+        yield ("time", ta, tb, zr)
+        fb = D.fields(tb)[3:]
+        pick = lambda good, bad: "x" if rng.random() < 0.5 else (good if rng.random() < 0.85 else rng.choice(bad))   # noqa: E731
+        zr2 = _rand_zr(rng, "zf")
+        yield ("trepl", ta, zr, rng.randint(0, 1), pick(fb[0], (24, -1)), pick(fb[1], (60, -1)), pick(fb[2], (60, -1)), pick(fb[3], (1000000, -1)),
+               rng.choice(("k", "k", "c", zr2 if zr2 != zr else "c")), rng.choice(("x", "x", 0, 1)))
+        zo = rng.choice(("n", "n", "n", zr2))
+        yield ("tsub", "s", ta, zr, tb, zo, i % 2)
+        yield ("tsub", "r", ta, zr, tb, zo, 1)
 
 
 def corpus():
@@ -615,7 +880,15 @@ def corpus():
             ("cmp", paris, w, 0, paris, w, 1, 0), ("cmp", paris, w, 1, paris, w + 600 * US, 0, 0), ("cmp", paris, w, 1, paris, w, 0, 1),
             ("sub", paris, w, 1, paris, w, 0, 0), ("sub", paris, g + DAY, 0, paris, g - DAY, 0, 0), ("sub", paris, w, 1, paris, w, 0, 1),
             ("az", paris, w, 1, paris, 0), ("az", paris, w, 1, str(D.ZI["America/New_York"]), 1), ("ty", paris, w, 1),
-            ("repl", paris, w + DAY, 0, w, 1), ("date", 1, 3652059), ("time", 0, DAY - 1, paris)]
+            ("repl", paris, w + DAY, 0, w, 1), ("date", 1, 3652059), ("time", 0, DAY - 1, paris),
+            ("parts", paris, w, 1), ("parts", paris, g, 0), ("comb", paris, w, 1, "n"), ("comb", paris, w, 0, "n"), ("comb", "n", w, 1, paris),
+            ("comb", paris, g, 1, "n"), ("comb", "n", w, 1, "n"), ("comb", paris, w, 1, str(D.ZI["America/New_York"])),
+            ("dford", 0), ("dford", 3652059), ("dford", 3652060), ("drepl", 737484, "x", 2, 30), ("drepl", 737484, 10000, "x", "x"),
+            ("drepl", 737484, "x", "x", "x"), ("dsub", 1, 3652059, 0), ("dsub", 3652059, 1, 1),
+            ("trepl", 9000 * US + 5, paris, 1, "x", "x", "x", "x", "k", 1), ("trepl", 9000 * US + 5, paris, 1, 24, "x", "x", "x", "k", "x"),
+            ("trepl", 9000 * US + 5, "n", 0, 3, "x", "x", 7, str(D.ZI["America/New_York"]), "x"), ("trepl", 5, paris, 0, "x", "x", "x", "x", "c", "x"),
+            ("tsub", "s", 5 * 3600 * US + 1, "n", 9000 * US, "n", 0), ("tsub", "s", 5, "n", 9000 * US, paris, 1), ("tsub", "s", 5, paris, 9000 * US, "n", 0),
+            ("tsub", "r", 5, "n", 9000 * US, "n", 1), ("tsub", "r", 5, paris, 9000 * US, "n", 1), ("tsub", "r", 5, "n", 9000 * US, paris, 1)]
 
 
 # ----------------------------------------------------------------------------- tags, findings
@@ -638,6 +911,14 @@ def tag(op, out):
         return "%s:%s/%s:%s" % (k, _wc(op[1], op[2]), _wc(op[4], op[5]), "same" if _same(op) else ("fresh" if op[7] else "diff"))
     if k == "repl":
         return "repl:" + _wc(op[1], op[4])
+    if k == "parts":
+        return "parts:%s:fold%d" % (_wc(op[1], op[2]), op[3])
+    if k == "comb":
+        zr = op[1] if op[1] != "n" else op[4]
+        return "comb:%s:%s:fold%d" % ("time-tz" if op[1] != "n" else ("arg-tz" if op[4] != "n" else "naive"), _wc(zr, op[2]), op[3]) + \
+            (":both" if op[1] != "n" and op[4] != "n" else "")
+    if k in ("dford", "drepl", "trepl", "tsub"):
+        return k + (":err" if out.startswith("err") else ":ok") + (":" + op[1] if k == "tsub" else "")
     return k
 
 
